@@ -177,6 +177,7 @@ class Frame:
         self.cells = cells
         self.globs = globs
         self.selfobj = selfobj
+        self.parent = None
 
 
 class Obligation:
@@ -323,6 +324,8 @@ class Engine:
     # ---- running functions ------------------------------------------------
     def call_function(self, fn, args, kwargs=None, selfobj=None):
         """Inline-execute a real Python function on model values."""
+        if isinstance(fn, ClosureModel):
+            return self.call_closure(fn, list(args), kwargs)
         if isinstance(fn, types.MethodType):
             selfobj = fn.__self__
             fn = fn.__func__
@@ -372,6 +375,26 @@ class Engine:
         finally:
             self.frames.pop()
         return rv
+
+    def call_closure(self, c, args, kwargs):
+        node = c.node
+        params = [p.arg for p in node.args.args]
+        if len(args) > len(params) or kwargs:
+            raise Refuse('closure call arguments')
+        locs = dict(zip(params, args))
+        if len(locs) != len(params):
+            raise Refuse('closure call with defaults')
+        fr = Frame(c.frame.fn, node, locs, c.frame.cells, c.frame.globs, c.frame.selfobj)
+        fr.parent = c.frame
+        self.frames.append(fr)
+        try:
+            try:
+                self.exec_block(node.body)
+                return None
+            except _Return as r:
+                return r.value
+        finally:
+            self.frames.pop()
 
     def run_stmts(self, fn, stmts, locs, selfobj=None):
         """Execute a slice (list of statement nodes taken from fn's own AST) in a
@@ -461,6 +484,10 @@ class Engine:
             self.exec_import(s)
         elif isinstance(s, ast.Try):
             self.exec_try(s)
+        elif isinstance(s, ast.FunctionDef):
+            if s.decorator_list or s.args.vararg or s.args.kwarg or s.args.kwonlyargs:
+                raise Refuse('nested function with decorators / variadic signature')
+            fr.loc[s.name] = ClosureModel(s, fr)
         elif isinstance(s, (ast.Global, ast.Nonlocal)):
             raise Refuse('global/nonlocal')
         else:
@@ -878,7 +905,10 @@ class Engine:
         return self.ev(sl)
 
     def lookup(self, name, node=None):
-        for fr in (self.frames[-1],):
+        chain = [self.frames[-1]]
+        while getattr(chain[-1], 'parent', None) is not None:
+            chain.append(chain[-1].parent)
+        for fr in chain:
             if name in fr.loc:
                 v = fr.loc[name]
                 if isinstance(v, _Unbound):
@@ -887,6 +917,7 @@ class Engine:
                     fr.loc[name] = v.value
                     return v.value
                 return v
+        for fr in (self.frames[-1],):
             if name in fr.cells:
                 return self.wrap(fr.cells[name])
             if name in fr.globs:
@@ -1365,6 +1396,8 @@ class Engine:
             return self.unknown_call(f, args, kwargs, node)
         if isinstance(f, CallModel):
             return f.handler(self, args, kwargs, node)
+        if isinstance(f, ClosureModel):
+            return self.call_closure(f, args, kwargs)
         if isinstance(f, BoundModelMethod):
             h = self.call_models.get(id(f.fn))
             if h is not None:
@@ -1496,6 +1529,15 @@ class _Unbound:
         self.name = name
         self.when = when   # SB: condition under which the name is unbound
         self.value = value
+
+
+class ClosureModel:
+    """A function defined inside a function being executed: its free variables
+    are looked up in the defining frame."""
+
+    def __init__(self, node, frame):
+        self.node = node
+        self.frame = frame
 
 
 class BoundModelMethod:
